@@ -52,16 +52,15 @@ func canonFull(ans string) string {
 
 // asymFullEnc: the same for EncryptPublicKey / DecryptPrivateKey (model: generated dispatch + key
 // guard + the Lean-native RSAES scheme of the helper's stdlib call).
-func (h *H) asymFullEnc(d *lib.Drv) {
+func (h *H) asymFullEnc(d *lib.Drv, rng *lib.Rand) {
 	ks := getKeys()
-	rng := h.rng.Fork()
 	kinds := []string{"rsaPriv", "rsaPub", "ecP256Priv", "ed25519Pub", "x25519Priv", "oct"}
 	names := append(append([]string{}, kc.SupportedAsymmetricAlgorithms()...), "RSA-OAEP-1", "ECDH-ES", "RS256", "RSA1_")
 	diff := func(corr, line, model, impl string) {
 		if model != impl {
 			h.res.Disagree(corr, map[string]any{"line": line}, model, impl)
 		} else {
-			h.res.Traces++
+			h.trace()
 		}
 	}
 	k := (ks.rsa[0].N.BitLen() + 7) / 8
@@ -133,7 +132,7 @@ func hashLenOf(alg string) int {
 	return 32
 }
 
-func (h *H) asymFull() {
+func (h *H) asymFull(rng *lib.Rand) {
 	if h.f.Drv == "" {
 		return
 	}
@@ -142,16 +141,15 @@ func (h *H) asymFull() {
 		return
 	}
 	defer d.Close()
-	h.asymFullEnc(d)
+	h.asymFullEnc(d, rng.Fork())
 	ks := getKeys()
-	rng := h.rng.Fork()
 	kinds := []string{"rsaPriv", "rsaPub", "ecP256Priv", "ecP256Pub", "ecP384Priv", "ecP384Pub", "ecP521Priv", "ecP521Pub", "ed25519Priv", "ed25519Pub", "x25519Priv", "oct"}
 	names := append(append([]string{}, kc.SupportedSignatureAlgorithms()...), "RS257", "ES", "RSA-OAEP", "HS256")
 	diff := func(corr, line, model, impl string) {
 		if model != impl {
 			h.res.Disagree(corr, map[string]any{"line": line}, model, impl)
 		} else {
-			h.res.Traces++
+			h.trace()
 		}
 	}
 	for _, alg := range names {
